@@ -6,6 +6,7 @@ harness/c09.py::translate_case_tables), and the string-level consequences for th
 -/
 import EPV.Gen.C09Case
 import EPV.Lemmas.StringsCase
+import EPV.Lemmas.StringsCase2
 namespace EPV.C09
 open EPV.FOStrings (Str)
 open EPV.Strings (tableFun inRanges)
@@ -230,5 +231,79 @@ theorem case_ascii (s : Str) (h : ∀ c ∈ s, c < 128) :
         rw [(hrow c hc).2, ih (fun x hx => h x (List.mem_cons_of_mem _ hx))]
         rfl
     exact this []
+
+
+/-! ### the two readings of Final_Sigma over CPython's classes; `lower-case` / `upper-case` for ALL strings -/
+
+/-- no range of the observed Cased class meets a range of the Case_Ignorable class -/
+theorem cased_ignorable_ranges_disjoint :
+    (casedRanges.all fun r => ignorableRanges.all fun q => r.2 < q.1 || q.2 < r.1) = true := by
+  decide +kernel
+
+theorem cased_ignorable_disjoint (c : Nat) :
+    ¬ (inRanges casedRanges c = true ∧ inRanges ignorableRanges c = true) := by
+  intro ⟨h1, h2⟩
+  unfold inRanges at h1 h2
+  rw [List.any_eq_true] at h1 h2
+  obtain ⟨r, hr, hrc⟩ := h1
+  obtain ⟨q, hq, hqc⟩ := h2
+  have h := cased_ignorable_ranges_disjoint
+  rw [List.all_eq_true] at h
+  have h' := h r hr
+  rw [List.all_eq_true] at h'
+  have h'' := h' q hq
+  simp only [Bool.and_eq_true, Bool.or_eq_true, decide_eq_true_eq] at hrc hqc h''
+  omega
+
+/-- `lower-case` with CPython's tables, for ALL strings: the code (CPython's `handle_capital_sigma`
+loop around the full lower-case mapping) computes the default lower-casing of Unicode §3.13 with the
+Final_Sigma condition *read literally* (Table 3-17, existential reading) over the classes "Cased and
+not Case_Ignorable" / Case_Ignorable — and the same with the skip reading. -/
+theorem lower_case_all_strings (s : Str) :
+    lowerCaseG s = FOStrings.lowerCaseLiteral (tableFun lowerTable) (inRanges casedRanges)
+        (inRanges ignorableRanges) s ∧
+    lowerCaseG s = FOStrings.lowerCase (tableFun lowerTable) (inRanges casedRanges)
+        (inRanges ignorableRanges) s :=
+  ⟨Strings.lowerCase_eq_literal _ _ _ cased_ignorable_disjoint s, Strings.lowerCase_eq_spec _ _ _ s⟩
+
+/-- The hypothesis "no character is both Cased and Case_Ignorable" of the agreement of the two
+readings is necessary: with the full Unicode property Cased (Lowercase ∪ Uppercase ∪ Lt, regenerated
+from `str.islower/isupper/category`), U+02B0 MODIFIER LETTER SMALL H is both, and after `1ʰ` a Σ is in
+Final_Sigma context by the literal reading but not by the reading of CPython/ICU (which `lower-case`
+follows: `lower-case('1ʰΣ')` ends in σ). -/
+theorem final_sigma_readings_differ_with_full_cased :
+    inRanges casedPropertyRanges 0x2B0 = true ∧ inRanges ignorableRanges 0x2B0 = true ∧
+    FOStrings.finalSigmaLiteral (inRanges casedPropertyRanges) (inRanges ignorableRanges) [0x2B0, 0x31] [] = true ∧
+    FOStrings.finalSigma (inRanges casedPropertyRanges) (inRanges ignorableRanges) [0x2B0, 0x31] [] = false ∧
+    lowerCaseG [0x31, 0x2B0, 0x3A3] = [0x31, 0x2B0, 0x3C3] := by
+  decide +kernel
+
+/-- `upper-case` with CPython's tables, for ALL strings: character-wise full mapping (context free),
+between one and three characters per character. -/
+theorem upper_case_all_strings (s : Str) :
+    upperCaseG s = FOStrings.upperCase (tableFun upperTable) s ∧
+    s.length ≤ (upperCaseG s).length ∧ (upperCaseG s).length ≤ 3 * s.length := by
+  refine ⟨rfl, ?_⟩
+  have hrow : ∀ c, 1 ≤ (tableFun upperTable c).length ∧ (tableFun upperTable c).length ≤ 3 := by
+    intro c
+    unfold tableFun
+    have h := upper_rows_len_le_3
+    generalize upperTable = t at h
+    induction t with
+    | nil => simp [Strings.lookupNat]
+    | cons e es ih =>
+      obtain ⟨k, v⟩ := e
+      simp only [List.all_cons, Bool.and_eq_true, decide_eq_true_eq] at h
+      simp only [Strings.lookupNat]
+      cases Nat.beq k c with
+      | true => exact h.1
+      | false => exact ih h.2
+  unfold upperCaseG Strings.upperCase
+  induction s with
+  | nil => simp
+  | cons c cs ih =>
+    simp only [List.flatMap_cons, List.length_append, List.length_cons]
+    have := hrow c
+    omega
 
 end EPV.C09
